@@ -234,6 +234,72 @@ def r11_3(run):
     run.ob('R11.3', ga, ga.node, 'reads map the unset sentinel to the option default', ok, slot='getattr-default', message='__getattr__ no longer maps DEFAULT_VALUE to _defaults')
 
 
+def list_types_agree(run, rid):
+    """is_list_config_type(klass) is evaluated (statically, from its AST) for every declared option type and compared with what that
+    type's parse() returns: exactly the types whose parse() gives a list are list types.  Recognised forms: a literal in
+    klass.__name__, klass.__name__ in [...], klass in <tuple of classes>, issubclass(klass, ...), and / or / not."""
+    m = run.idx.module(MOD)
+    il = run.idx.unit(MOD + '.is_list_config_type')
+    base = run.idx.cls('TorConfigType', MOD)
+    declared = sorted(c.name for c in run.idx.subclasses(base))
+    kp = il.params[0]
+    rets = [r for r in walk_unit(il) if isinstance(r, ast.Return)]
+    if len(rets) != 1:
+        raise Undecided('is_list_config_type: not a single return expression')
+
+    def class_set(e):
+        if isinstance(e, ast.Name) and isinstance(m.assigns.get(e.id), (ast.Tuple, ast.List)):
+            e = m.assigns[e.id]
+        if isinstance(e, (ast.Tuple, ast.List)):
+            return [dotted(x) for x in e.elts]
+        if isinstance(e, ast.Name):
+            return [e.id]
+        return None
+
+    def ev(e, cname):
+        if isinstance(e, ast.BoolOp):
+            vs = [ev(x, cname) for x in e.values]
+            if any(v is None for v in vs):
+                return None
+            return all(vs) if isinstance(e.op, ast.And) else any(vs)
+        if isinstance(e, ast.UnaryOp) and isinstance(e.op, ast.Not):
+            v = ev(e.operand, cname)
+            return None if v is None else (not v)
+        if isinstance(e, ast.Compare) and len(e.ops) == 1 and isinstance(e.ops[0], (ast.In, ast.NotIn)):
+            l, r = e.left, e.comparators[0]
+            res = None
+            if isinstance(const(l), str) and dotted(r) == kp + '.__name__':
+                res = const(l) in cname
+            elif dotted(l) == kp + '.__name__' and isinstance(const(r), (list, tuple)):
+                res = cname in const(r)
+            elif dotted(l) == kp and class_set(r) is not None:
+                res = cname in class_set(r)
+            if res is None:
+                return None
+            return res if isinstance(e.ops[0], ast.In) else (not res)
+        if isinstance(e, ast.Call) and dotted(e.func) == 'issubclass' and len(e.args) == 2 and dotted(e.args[0]) == kp:
+            cs = class_set(e.args[1])
+            if cs is None:
+                return None
+            c = run.idx.cls(cname, MOD)
+            return any(x.simple in cs for x in run.idx.mro(c))
+        return None
+    k = 0
+    for cname in declared:
+        c = run.idx.cls(cname, MOD)
+        pm = run.idx.find_method(c, 'parse')
+        prets = [r for r in walk_unit(pm) if isinstance(r, ast.Return)] if pm is not None else []
+        gives_list = bool(prets) and all(isinstance(r.value, (ast.ListComp, ast.List)) or (isinstance(r.value, ast.Call) and dotted(r.value.func) == 'list') for r in prets)
+        verdict = ev(rets[0].value, cname)
+        k += 1
+        run.ob(rid, il, il.node, 'option type %s is %sa list type' % (cname, '' if gives_list else 'not '), None if verdict is None else (verdict == gives_list),
+               slot='is-list:%s' % cname,
+               message='is_list_config_type(%s) is %s but %s.parse() returns %s: options of that type are %s' % (
+                   cname, verdict, cname, 'a list' if gives_list else 'a scalar',
+                   'stored as plain untracked lists (in-place edits are never sent)' if gives_list else 'wrapped as lists'))
+    run.floor(rid, 'declared option types', k, 8)
+
+
 def r11_4(run):
     """bootstrap: every listed option gets its declared parser and a GETCONF; change events are subscribed"""
     ds = CU(run, '_do_setup')
@@ -256,7 +322,7 @@ def r11_4(run):
     declared = set(c.name for c in run.idx.subclasses(base))
     run.ob('R11.4', m.rel, ct, 'every declared config type is selectable', declared <= listed, slot='types-listed', message='types not in config_types: %s' % sorted(declared - listed))
     il = run.idx.unit(MOD + '.is_list_config_type')
-    run.ob('R11.4', il, il.node, 'list types recognised by name', "'List' in" in src(il.node), slot='is-list', message='is_list_config_type changed')
+    list_types_agree(run, 'R11.4')
     for cname in sorted(declared):
         c = run.idx.cls(cname, MOD)
         pm = run.idx.find_method(c, 'parse')
@@ -569,6 +635,35 @@ def r11_11(run):
     run.floor('R11.11', '_ListWrapper construction sites in TorConfig', k, 6)
 
 
+def r11_12(run):
+    """(a) a change event is applied to every option it names: no path through one iteration of _conf_changed's loop skips the store
+    (a pending local edit, for instance, is no reason to ignore what another controller changed);
+    (b) the bootstrap writes each GETCONF answer into the view when it arrives: CONF_CHANGED is subscribed before the GETCONF loop, so
+    values collected in a local and published after later suspension points overwrite changes the handler applied meanwhile."""
+    cc = CU(run, '_conf_changed')
+    g = cfg_of(cc)
+    stores = g.nodes_where(lambda n: n.kind == 'stmt' and isinstance(n.ast, ast.Assign) and any(isinstance(t, ast.Subscript) and dotted(t.value) == 'self.config' for t in n.ast.targets))
+    loops = [n for n in g.live if n.kind == 'iter' and isinstance(n.ast, ast.For) and any(s_.ast is x for s_ in stores for x in ast.walk(n.ast))]
+    run.floor('R11.12', 'event loops in _conf_changed', len(loops), 1)
+    for lp in loops:
+        start = [s_ for lab, s_ in lp.succ if lab == 'body']
+        skip = g.reachable(start, avoid=lambda n: n in stores, follow_exc=False)
+        run.ob('R11.12', cc, lp.ast, 'every option named in a change event is stored', lp not in skip and not any(e in skip for e in g.normal_exits()), slot='event-applied-to-all',
+               message='_conf_changed can move on to the next option (or return) without storing the reported value: a change made by another controller is '
+                       'ignored and reads keep the old value')
+    ds = CU(run, '_do_setup')
+    ups = [c for c in calls_in(ds) if dotted(c.func) == 'self.config.update' and c.args and isinstance(c.args[0], ast.Name)]
+    for c in ups:
+        nm = c.args[0].id
+        filled_in_loop = any(isinstance(lp_, (ast.For, ast.While)) and any(isinstance(x, (ast.Yield, ast.Await)) for x in ast.walk(lp_)) and
+                             any(isinstance(x, ast.Assign) and any(isinstance(t, ast.Subscript) and dotted(t.value) == nm for t in x.targets) for x in ast.walk(lp_))
+                             for lp_ in walk_unit(ds))
+        run.ob('R11.12', ds, c, 'bootstrap answers are written to the view as they arrive (no late bulk publication)', not filled_in_loop, slot='late-publication',
+               message='_do_setup collects the GETCONF answers in %s across its suspension points and publishes them with self.config.update() afterwards: a CONF_CHANGED '
+                       'handled in between is overwritten by the older answer' % nm)
+    run.ob('R11.12', ds, ds.node, 'bulk publications examined', True)
+
+
 def r11_6(run):
     us = [CU(run, '_do_setup'), CU(run, '_get_defaults'), run.idx.find_method(TC(run), 'from_protocol')]
     k = dropped_deferreds(run, 'R11.6', [u for u in us if u is not None], 'the configuration bootstrap')
@@ -581,6 +676,7 @@ RULES = [
     ('R11.9', 'list leg of _conf_changed by path enumeration over (unset marker, parser known, already a list): default / parse once / listify / wrap last', r11_9),
     ('R11.10', 'parse_keywords keeps every value of a repeated key in both line modes (R13.3 borrowed; CONF_CHANGED uses the one-line mode)', r11_10),
     ('R11.11', 'forward must-be-list analysis: every _ListWrapper(x, ...) in TorConfig gets a flat list on every path', r11_11),
+    ('R11.12', 'a change event is applied to every option it names; bootstrap answers are not published late in bulk', r11_12),
     ('R11.6', 'no dropped Deferred in the configuration bootstrap (every GETCONF is awaited before the view is declared ready)', r11_6),
     ('R11.5', 'sibling agreement: default lookup + parse on the unset leg in _do_setup and _conf_changed; key-form agreement of list_parsers writers/reader', r11_5),
     ('R11.1', 'store-site typing: every value stored under a Tor option key that may be list-typed is a _ListWrapper (or excluded by a dominating test / copied from the wrapped pending set)', r11_1),
@@ -592,6 +688,7 @@ RULES = [
 from ..selftest import M  # noqa: E402
 F = 'txtorcon/torconfig.py'
 MUTANTS = [
+    M('event-skips-pending-options', F, "            real_name = self._find_real_name(k)\n            if real_name in self.list_parsers:", "            real_name = self._find_real_name(k)\n            if real_name in self.unsaved:\n                continue\n            if real_name in self.list_parsers:", ['R11.12']),
     M('single-default-line-as-str', F, "                    parsed = defaults.get(rn, [])\n                    if not isinstance(parsed, list):\n                        parsed = [parsed]  # just one default line\n", "                    parsed = defaults.get(rn, [])\n", ['R11.11']),
     M('port-values-nested', F, "                elif isinstance(v, list):\n                    initial = [self.parsers[rn].parse(x) for x in v]\n                else:", "                else:", ['R11.11']),
     M('saved-string-stays-string', F, "                if real_name in self.list_parsers and not isinstance(value, list):\n                    value = [value]\n", "", ['R11.1']),
